@@ -16,6 +16,11 @@ REPO = os.environ.get("VERIF_REPO", "/repo")
 sys.path.insert(0, os.path.join(REPO, "tests"))
 
 
+def names_arg(f):
+    # a fixture declared under two names: every name is a per-thread fixture of its own; the tests use the second one
+    return "names=[%r, %r], " % ("first_" + f["name"], f["name"]) if f.get("aliased") else ""
+
+
 def build_source(spec):
     out = ["import threading, time", "import lemoncheesecake.api as lcc", ""]
     for f in spec["fixtures"]:
@@ -24,7 +29,7 @@ def build_source(spec):
             # the fixture function is not a generator function itself: it RETURNS the generator of a helper
             out.append("def _gen_%s():" % f["name"])
         else:
-            out.append("@lcc.fixture(scope=%r, per_thread=True)" % f["scope"])
+            out.append("@lcc.fixture(%sscope=%r, per_thread=True)" % (names_arg(f), f["scope"]))
             out.append("def %s():" % f["name"])
         out.append("    v = Val()")
         out.append("    KEEP.append(v)")
@@ -40,7 +45,7 @@ def build_source(spec):
             out.append("    return v")
         out.append("")
         if delegating:
-            out.append("@lcc.fixture(scope=%r, per_thread=True)" % f["scope"])
+            out.append("@lcc.fixture(%sscope=%r, per_thread=True)" % (names_arg(f), f["scope"]))
             out.append("def %s():" % f["name"])
             out.append("    return _gen_%s()" % f["name"])
             out.append("")
